@@ -207,6 +207,58 @@ func runC18(o *out, thorough bool, r *rng, _ []string) map[string]interface{} {
 		}
 		o.count("key-buffer-reuse")
 	}
+	// long keys that share their first block: every byte of a key matters, also beyond the 64-byte block
+	for i := 0; i < 100; i++ {
+		kl := r.rangeIn(65, 200)
+		k1 := r.bytes(kl)
+		k2 := append([]byte(nil), k1...)
+		k2[r.rangeIn(64, kl-1)] ^= byte(1 + r.intn(255))
+		msg := r.bytes(r.intn(100))
+		for _, k := range [][]byte{k1, k2, k1} {
+			h := stun.VerifAcquireSHA1(k)
+			h.Write(msg)
+			ref := hmac.New(sha1.New, k)
+			ref.Write(msg)
+			if !bytes.Equal(h.Sum(nil), ref.Sum(nil)) {
+				o.fail("long-keys-with-common-first-block", fmt.Sprintf("x keylen=%d", kl))
+			}
+			stun.VerifPutSHA1(h)
+		}
+		o.count("long-keys-common-prefix")
+	}
+	// a MAC obtained from Sum stays what it was, whatever happens to the pooled object afterwards
+	for i := 0; i < 150; i++ {
+		k := r.hmacKey()
+		h := stun.VerifAcquireSHA1(k)
+		msg := r.bytes(r.intn(120))
+		h.Write(msg)
+		var kept []byte
+		switch i % 3 {
+		case 0:
+			kept = h.Sum(nil)
+		case 1:
+			kept = h.Sum(make([]byte, 0, r.intn(19)))
+		default:
+			kept = h.Sum([]byte{})
+		}
+		ref := hmac.New(sha1.New, k)
+		ref.Write(msg)
+		want := ref.Sum(nil)
+		h.Write(r.bytes(10))
+		_ = h.Sum(nil)
+		h.Reset()
+		h.Write(r.bytes(7))
+		_ = h.Sum(nil)
+		stun.VerifPutSHA1(h)
+		h2 := stun.VerifAcquireSHA1(r.hmacKey())
+		h2.Write(r.bytes(30))
+		_ = h2.Sum(nil)
+		stun.VerifPutSHA1(h2)
+		if !bytes.Equal(kept, want) {
+			o.fail("sum-result-overwritten-later", fmt.Sprintf("x mode=%d keylen=%d", i%3, len(k)))
+		}
+		o.count("kept-sum")
+	}
 	// MESSAGE-INTEGRITY computed concurrently through the public API, distinct keys, against crypto/hmac
 	{
 		var wg sync.WaitGroup
